@@ -134,6 +134,14 @@ type tr struct {
 	pkgFns map[string]string // Go function name -> Lean name
 }
 
+// lit: an integer literal; typed in "int" mode so that a `let x := 0` does not default to Nat
+func (t *tr) lit(v int64) string {
+	if t.mode == "int" {
+		return fmt.Sprintf("(%d : Int)", v)
+	}
+	return fmt.Sprintf("%d", v)
+}
+
 func (t *tr) expr(e ast.Expr) string {
 	switch x := e.(type) {
 	case *ast.BasicLit:
@@ -142,11 +150,11 @@ func (t *tr) expr(e ast.Expr) string {
 			if err != nil {
 				die("literal %s", x.Value)
 			}
-			return fmt.Sprintf("%d", v)
+			return t.lit(v)
 		}
 	case *ast.Ident:
 		if v, ok := t.consts[x.Name]; ok {
-			return fmt.Sprintf("%d", v)
+			return t.lit(v)
 		}
 		return leanIdent(x.Name)
 	case *ast.ParenExpr:
@@ -155,7 +163,7 @@ func (t *tr) expr(e ast.Expr) string {
 		// sum.head -> sumHead ; pkg.Const -> const value if known
 		if id, ok := x.X.(*ast.Ident); ok {
 			if v, ok := t.consts[x.Sel.Name]; ok && (id.Name == "pwr" || id.Name == "wsync") {
-				return fmt.Sprintf("%d", v)
+				return t.lit(v)
 			}
 			return leanIdent(id.Name + strings.Title(x.Sel.Name))
 		}
@@ -367,6 +375,167 @@ func (t *tr) assignRHS(f *ast.File, goName, lhs string) string {
 		die("assignment to %s not found in %s", lhs, goName)
 	}
 	return t.expr(found)
+}
+
+// ---------- slices: a contiguous run of straight-line statements inside a larger function
+
+var strictSlice = true
+
+// assignedVars: identifiers assigned (not defined) in a statement list, nested ifs included; in order of appearance.
+func assignedVars(ss []ast.Stmt, defined map[string]bool, out *[]string) {
+	add := func(n string) {
+		if defined[n] {
+			return
+		}
+		for _, o := range *out {
+			if o == n {
+				return
+			}
+		}
+		*out = append(*out, n)
+	}
+	for _, s := range ss {
+		switch x := s.(type) {
+		case *ast.AssignStmt:
+			for _, l := range x.Lhs {
+				if id, ok := l.(*ast.Ident); ok {
+					if x.Tok == token.DEFINE {
+						defined[id.Name] = true
+					} else {
+						add(id.Name)
+					}
+				} else if strictSlice {
+					die("slice: assignment to %s", exprString(l))
+				}
+			}
+		case *ast.IncDecStmt:
+			if id, ok := x.X.(*ast.Ident); ok {
+				add(id.Name)
+			}
+		case *ast.IfStmt:
+			inner := map[string]bool{}
+			for k := range defined {
+				inner[k] = true
+			}
+			assignedVars(x.Body.List, inner, out)
+			if blk, ok := x.Else.(*ast.BlockStmt); ok {
+				assignedVars(blk.List, inner, out)
+			} else if ei, ok := x.Else.(*ast.IfStmt); ok {
+				assignedVars([]ast.Stmt{ei}, inner, out)
+			}
+		}
+	}
+}
+
+// seq translates statements that do not return into nested lets ending in `result`.
+func (t *tr) seq(ss []ast.Stmt, result string) string {
+	if len(ss) == 0 {
+		return result
+	}
+	rest := ss[1:]
+	switch x := ss[0].(type) {
+	case *ast.IfStmt:
+		if x.Init != nil {
+			die("slice: if with init")
+		}
+		var vars []string
+		assignedVars([]ast.Stmt{x}, map[string]bool{}, &vars)
+		if len(vars) == 0 {
+			die("slice: if without effect: %s", exprString(x.Cond))
+		}
+		for i := range vars {
+			vars[i] = leanIdent(vars[i])
+		}
+		tuple := vars[0]
+		if len(vars) > 1 {
+			tuple = "(" + strings.Join(vars, ", ") + ")"
+		}
+		thenPart := t.seq(x.Body.List, tuple)
+		elsePart := tuple
+		if blk, ok := x.Else.(*ast.BlockStmt); ok {
+			elsePart = t.seq(blk.List, tuple)
+		} else if ei, ok := x.Else.(*ast.IfStmt); ok {
+			elsePart = t.seq([]ast.Stmt{ei}, tuple)
+		}
+		return "(let " + tuple + " := (if " + t.expr(x.Cond) + " then " + thenPart + " else " + elsePart + "); " + t.seq(rest, result) + ")"
+	case *ast.AssignStmt, *ast.IncDecStmt, *ast.DeclStmt:
+		// reuse stmts for the binding itself: translate `[s; return RESULT]` with a placeholder
+		ph := &ast.ReturnStmt{Results: []ast.Expr{&ast.Ident{Name: "\x00RESULT"}}}
+		one := t.stmts([]ast.Stmt{x, ph})
+		return strings.Replace(one, "\x00RESULT", t.seq(rest, result), 1)
+	}
+	die("slice: statement outside the translated fragment: %s", exprString(nil))
+	return ""
+}
+
+// slice finds, in function goName, the statement list that defines `start` (with :=), takes the statements from
+// there to the last one of that list that assigns `end` (directly or inside an if), drops those that `skip`
+// accepts, and translates them to a Lean term ending in `result`.
+func (t *tr) slice(f *ast.File, goName, start, end, result string, skip func(ast.Stmt) bool) string {
+	fd := findFunc(f, goName)
+	if fd == nil {
+		die("function %s not found", goName)
+	}
+	var out string
+	found := false
+	ast.Inspect(fd.Body, func(n ast.Node) bool {
+		blk, ok := n.(*ast.BlockStmt)
+		var list []ast.Stmt
+		if ok {
+			list = blk.List
+		} else if cc, ok := n.(*ast.CaseClause); ok {
+			list = cc.Body
+		} else {
+			return true
+		}
+		if found {
+			return false
+		}
+		si := -1
+		for i, s := range list {
+			if as, ok := s.(*ast.AssignStmt); ok && as.Tok == token.DEFINE && len(as.Lhs) == 1 && exprString(as.Lhs[0]) == start {
+				si = i
+				break
+			}
+		}
+		if si < 0 {
+			return true
+		}
+		ei := -1
+		for i := si; i < len(list); i++ {
+			var vars []string
+			strictSlice = false
+			assignedVars([]ast.Stmt{list[i]}, map[string]bool{}, &vars)
+			strictSlice = true
+			if as, ok := list[i].(*ast.AssignStmt); ok && as.Tok == token.DEFINE {
+				for _, l := range as.Lhs {
+					vars = append(vars, exprString(l))
+				}
+			}
+			for _, v := range vars {
+				if v == end {
+					ei = i
+				}
+			}
+		}
+		if ei < 0 {
+			die("slice %s: no statement assigning %s after %s", goName, end, start)
+		}
+		var keep []ast.Stmt
+		for _, s := range list[si : ei+1] {
+			if skip != nil && skip(s) {
+				continue
+			}
+			keep = append(keep, s)
+		}
+		out = t.seq(keep, result)
+		found = true
+		return false
+	})
+	if !found {
+		die("slice %s: definition of %s not found", goName, start)
+	}
+	return out
 }
 
 // ---------- shape facts
@@ -650,6 +819,71 @@ func main() {
 		fmt.Fprintf(&kb, "/-- rolling update of β1 in ComputeDiff -/\ndef rollBeta1 (beta1 alphaPop alphaPush : UInt32) : UInt32 :=\n  %s\n\n", b1)
 		fmt.Fprintf(&kb, "/-- rolling update of β2 in ComputeDiff (`sumHead - sumTail` is the window length) -/\ndef rollBeta2 (beta1 beta2 alphaPop : UInt32) (sumHead sumTail : UInt32) : UInt32 :=\n  %s\n\n", b2)
 		fmt.Fprintf(&kb, "/-- β from β1, β2 in ComputeDiff -/\ndef rollBeta (beta1 beta2 : UInt32) : UInt32 :=\n  %s\n\n", b)
+	}
+	{
+		// wsync.ApplySingleFull, OpBlockRange: number of bytes a block range stands for
+		f := parseFile(*repo, "wsync/algo.go")
+		t := &tr{mode: "int", consts: perPkg["wsync"], pkgFns: map[string]string{}}
+		fmt.Fprintf(&kb, "/-- wsync.ApplySingleFull, case OpBlockRange: `fixedSize := …` through `opSize := …` -/\ndef applyRangeSize (blockSize fileSize opBlockIndex opBlockSpan : Int) : Int :=\n  %s\n\n",
+			t.slice(f, "Context.ApplySingleFull", "fixedSize", "opSize", "opSize", nil))
+	}
+	{
+		// pwr.ReadSignature: ShortSize re-derived for block blockIndex of a file of f.Size bytes
+		f := parseFile(*repo, "pwr/sign.go")
+		t := &tr{mode: "int", consts: perPkg["pwr"], pkgFns: map[string]string{}}
+		fmt.Fprintf(&kb, "/-- pwr.ReadSignature: `shortSize := int32(0)` and the `if` that follows -/\ndef sigShortSize (blockIndex fSize : Int) : Int :=\n  %s\n\n",
+			t.slice(f, "ReadSignature", "shortSize", "shortSize", "shortSize", nil))
+	}
+	{
+		// bsdiff.DiffContext.Do: how the new file is cut into scan blocks
+		f := parseFile(*repo, "bsdiff/diff.go")
+		t := &tr{mode: "int", consts: constEnv{}, pkgFns: map[string]string{}}
+		fmt.Fprintf(&kb, "/-- bsdiff.DiffContext.Do: `blockSize := 128 * 1024` through the `if numBlocks < partitions` block -/\ndef scanPlan (nbuflen partitions : Int) : Int × Int :=\n  %s\n\n",
+			t.slice(f, "DiffContext.Do", "blockSize", "numBlocks", "(blockSize, numBlocks)", nil))
+		fmt.Fprintf(&kb, "/-- bsdiff.DiffContext.Do, scan worker: `boundary := …` through the `if blockIndex == numBlocks-1` block -/\ndef scanBlockExtent (blockSize numBlocks nbuflen blockIndex : Int) : Int × Int :=\n  %s\n\n",
+			t.slice(f, "DiffContext.Do", "boundary", "realBlockSize", "(boundary, realBlockSize)", nil))
+	}
+	{
+		// lrufile.Read: one turn of the loop, without the chunk load and the copy
+		f := parseFile(*repo, "bsdiff/lrufile/lrufile.go")
+		t := &tr{mode: "int", consts: constEnv{}, pkgFns: map[string]string{}}
+		skip := func(s ast.Stmt) bool {
+			if as, ok := s.(*ast.AssignStmt); ok && exprString(as.Lhs[0]) == "chunk" {
+				return true
+			}
+			if is, ok := s.(*ast.IfStmt); ok && exprString(is.Cond) == "err != nil" {
+				return true
+			}
+			return false
+		}
+		fmt.Fprintf(&kb, "/-- lrufile.lruFile.Read, loop body: `chunkIndex := …` through the `if end > chunkSize` block (chunk load skipped) -/\ndef lruTurn (lfOffset lfChunkSize lfSize remaining : Int) (eof : Bool) : Int × Int × Int × Bool :=\n  %s\n\n",
+			t.slice(f, "lruFile.Read", "chunkIndex", "end", "(chunkIndex, start, end', eof)", skip))
+	}
+	{
+		// safekeeper.validateBlock: which block an offset falls into and where that block starts
+		f := parseFile(*repo, "pwr/safekeeper.go")
+		t := &tr{mode: "int", consts: perPkg["pwr"], pkgFns: map[string]string{}}
+		fd := findFunc(f, "safeKeeper.validateBlock")
+		if fd == nil {
+			die("safeKeeper.validateBlock not found")
+		}
+		var bi, bo ast.Expr
+		ast.Inspect(fd.Body, func(n ast.Node) bool {
+			if as, ok := n.(*ast.AssignStmt); ok && as.Tok == token.DEFINE && len(as.Lhs) == 1 {
+				switch exprString(as.Lhs[0]) {
+				case "blockIndex":
+					bi = as.Rhs[0]
+				case "blockOffset":
+					bo = as.Rhs[0]
+				}
+			}
+			return true
+		})
+		if bi == nil || bo == nil {
+			die("safeKeeper.validateBlock: blockIndex / blockOffset definitions not found")
+		}
+		fmt.Fprintf(&kb, "/-- safeKeeper.validateBlock: `blockIndex := …` -/\ndef skBlockIndex (skrOffset : Int) : Int :=\n  %s\n\n", t.expr(bi))
+		fmt.Fprintf(&kb, "/-- safeKeeper.validateBlock: `blockOffset := …` -/\ndef skBlockOffset (blockIndex : Int) : Int :=\n  %s\n\n", t.expr(bo))
 	}
 	kb.WriteString("end Wharf.Gen\n")
 	writeIfChanged(filepath.Join(*out, "Kernels.lean"), kb.String())
